@@ -156,6 +156,10 @@ T3 = {
  'C20-r3-2': ('rpc/server', 'TestDemo2Follower', 'every receive error from a follower is marked retriable', 'a follower stream dying mid-result with a redundant handler registered', 'strengthened', 'C20.j'),
 }
 
+# confirmed to break the property, but they also fail the baseline's stable TestServers subtests when the
+# server package is run alone in a private network namespace on an idle machine: not kept
+DROPPED = {'C04-1', 'C10-r2-2'}
+
 def main():
     os.makedirs(DST, exist_ok=True)
     n = 0
@@ -163,6 +167,8 @@ def main():
     allT.update(T2)
     allT.update(T3)
     for key, (ddir, pat, what, needs, status, rule) in sorted(allT.items()):
+        if key in DROPPED:
+            continue
         parts = key.split('-')
         prop, k = parts[0], parts[-1]
         src = os.path.join('/tmp/seedout3' if 'r3' in parts else ('/tmp/seedout2' if 'r2' in parts else SRC), prop)
